@@ -62,6 +62,10 @@ PROPS["C03"] = {
         I("c03::c03_encode_u16", bounds="all u16 indices"),
         I("c03::c03_encode_u32", bounds="all u32 indices"),
         I("c03::c03_witness", bounds="reachability twin", expect_fail=True),
+        I("c03::selftest_overflow", bounds="self-test of the flag set: a u8 overflow must be reported",
+          expect_fail="attempt to add with overflow"),
+        I("c03::selftest_index", bounds="self-test of the flag set: an out-of-range index must be reported",
+          expect_fail="index out of bounds"),
     ],
     "jobs": {"quick": 6, "thorough": 6},
 }
@@ -77,16 +81,16 @@ PROPS["C19"] = {
     ],
     "bounds": {
         "quick": "query harnesses: ANY cache state satisfying the representation invariant with exactly k lines, "
-                 "k = 1..4 (one instance each), every line start and the trailing length a free 40-bit value, "
+                 "k = 1..4 and 12 (one instance each), every line start and the trailing length a free 40-bit value, "
                  "offset / span free 64-bit values; feed: pre-state of k = 1..2 lines (free offsets) + chunk of "
                  "n = 1..2 free characters from {a, LF, CR, e-acute (2 bytes), euro (3 bytes)}; columns: texts of "
                  "2..3 free characters from {a, LF, CR, e-acute}, fed in two pieces at a free split, free "
                  "character-boundary offset; unwind = loop bound derived per instance",
-        "thorough": "as quick plus k = 5..8 query states, feed with k = 3 and n = 3, column texts of 4 characters "
+        "thorough": "as quick plus k = 5..8 and 10 query states, feed with k = 3 and n = 3, column texts of 4 characters "
                     "and of 3 characters including a 3-byte character",
     },
     "outside_claim": [
-        "query states with more than 8 lines (feed itself is covered inductively for any number of lines)",
+        "query states with more than 12 lines (feed itself is covered inductively for any number of lines)",
         "texts longer than 4 characters for columns",
         "how lrlex's lexer fills the cache while lexing (LRNonStreamingLexerDef::lexer: regex); the lexer-level "
         "queries span_lines_str / line_col themselves are covered through LRNonStreamingLexer::new",
@@ -110,6 +114,8 @@ PROPS["C19"] = {
         I("c19::c19_line_k6", "thorough", bounds="6 lines"),
         I("c19::c19_line_k7", "thorough", bounds="7 lines"),
         I("c19::c19_line_k8", "thorough", bounds="8 lines"),
+        I("c19::c19_line_k10", "thorough", bounds="10 lines"),
+        I("c19::c19_line_k12", bounds="12 lines"),
         I("c19::c19_line_witness", bounds="reachability twin, 3 lines", expect_fail=True),
         I("c19::c19_span_k1", bounds="1 line", no_cover=["line start"]),
         I("c19::c19_span_k2", bounds="2 lines", no_cover=["line start"]),
@@ -119,6 +125,8 @@ PROPS["C19"] = {
         I("c19::c19_span_k6", "thorough", bounds="6 lines"),
         I("c19::c19_span_k7", "thorough", bounds="7 lines"),
         I("c19::c19_span_k8", "thorough", bounds="8 lines"),
+        I("c19::c19_span_k10", "thorough", bounds="10 lines"),
+        I("c19::c19_span_k12", bounds="12 lines"),
         I("c19::c19_feed_k1_w1", bounds="1 line + widths [1]"),
         I("c19::c19_feed_k2_w11", bounds="2 lines + widths [1,1]"),
         I("c19::c19_feed_k1_w111", bounds="1 line + widths [1,1,1]"),
@@ -152,7 +160,7 @@ def _c17_instances():
     for sh in _SHAPES:
         tag = sh["tag"]
         b = (f"domain {sh['domain']}: {sh['rules']} rules incl. start, {sh['tokens']} tokens incl. EOF, productions "
-             f"rule={sh['rule']} len={sh['len']} ({sh['slots']} symbolic slots), token costs 1..3, unwind {sh['unwind']}")
+             f"rule={sh['rule']} len={sh['len']} ({sh['slots']} symbolic slots), token costs 1..255, unwind {sh['unwind']}")
         if tag in _QUICK_SHAPES:
             tier = "quick"
         elif sh["domain"] in ("g23", "g24"):
@@ -188,7 +196,7 @@ PROPS["C17"] = {
         "quick": "symbolic grammar domain G(2,3,2,3): 2 user rules + start rule, 3 user productions of length <= 2, "
                  "2 user tokens + EOF; the 10 shapes with the most symbolic slots every run plus 2 further shapes "
                  "per run chosen by VERIF_SEED (36 shapes in all); per shape EVERY symbol slot (token or user rule), "
-                 "every token cost in 1..3 and the candidate fixed point X are solver variables; unwind = derived "
+                 "every token cost in 1..255 and the candidate fixed point X are solver variables; unwind = derived "
                  "bound (rules + 2 rounds of each fixed-point loop); FIRST/nullable at the shape a2_b1_c0 (three "
                  "user rules, productions of length 2, 1, 0)",
         "thorough": "all 36 shapes of G(2,3,2,3) plus 7 hand-picked shapes of G(3,4,3,3) (3 user rules, 4 user "
@@ -200,13 +208,13 @@ PROPS["C17"] = {
         "21 GB with the as-built harness, 36 GB with a single user token); FIRST / nullable only at four small "
         "shapes (15-20 GB each; one of them in the quick tier)",
         "min_sentence / min_sentences: symbolic execution 23 min then out of memory at 25 GB on the smallest shape",
-        "grammars with more rules / productions / longer productions than the domain; token costs > 3",
+        "grammars with more rules / productions / longer productions than the domain",
         "maximum cost of rules on unit-only cycles: 'recursive' and 'unbounded' differ there; None is accepted "
         "for every rule that reaches a reference cycle",
         "unproductive rules in the minimum-cost harness (assumed away by a symbolic productivity witness)",
     ],
     "assumptions": [
-        "min cost: every rule productive (symbolic rank witness)", "token costs in 1..=3",
+        "min cost: every rule productive (symbolic rank witness)", "token costs >= 1 (the documented precondition)",
         "grammar built through the hook YaccGrammar::verif_from_parts (the object new_from_ast_with_validity_info "
         "produces: rule 0 = start rule, last token = EOF)",
         "trusted: Kani MIR->goto translation, CBMC, CaDiCaL, the oracles (closed-set / sub-solution predicates, "
@@ -303,6 +311,7 @@ PROPS["C10"] = {
         I("c12::c10_ws_block2", bounds="'/*' + 2 free chars", termination=_SCANNERS, est_gb=6),
         I("c12::c10_ws_star2", bounds="'/**' + 2 free chars", termination=_SCANNERS, est_gb=6),
         I("c12::c10_ws_line2", bounds="'//' + 2 free chars", termination=_SCANNERS, est_gb=6),
+        I("c12::c10_ws_linemb", bounds="'//' + a 3-byte char + 2 free chars", termination=_SCANNERS, est_gb=8),
         I("c12::c10_ws_witness", bounds="reachability twin ('/*' + 2 free chars)", expect_fail=True, est_gb=6),
         I("c12::c10_ws_block3", "thorough", bounds="'/*' + 3 free chars", termination=_SCANNERS, est_gb=10),
         I("c12::c10_ws_star3", "thorough", bounds="'/**' + 3 free chars", termination=_SCANNERS, est_gb=10),
